@@ -10,6 +10,7 @@
 -/
 import TopSearch.Props.C01
 import TopSearch.Props.C04
+import TopSearch.Props.C10
 
 namespace TopSearch.Props.C01
 open TopSearch TopSearch.Ktn TopSearch.Merge TopSearch.Pipeline TopSearch.Hef
@@ -77,5 +78,70 @@ theorem C01_landscape_consistent (f : List α → α) (gradF : List α → List 
       (∀ x, s.nodeData? a = some x → Barrier ε y x) ∧ (∀ x, s.nodeData? b = some x → Barrier ε y x)) := by
   obtain ⟨_, hc⟩ := C01_inv_current hsym ops hok s h
   exact ⟨hc.mins, fun a b y hy => ⟨hc.tss a b y hy, hc.bar a b y hy⟩⟩
+
+/-! ### composition with the minimiser wrapper of C10 -/
+
+/-- a finite box `[(lo₀, up₀), …]` as the wrapper receives it (`coords.bounds`) -/
+def finiteBounds (lo up : List α) : List (TopSearch.Lbfgs.Bound α) :=
+  List.zipWith (fun l u => (some l, some u)) lo up
+
+omit [Field α] [IsStrictOrderedRing α] in
+/-- `InBox` peels off the head coordinate -/
+theorem InBox_cons (a l u : α) (xs ls us : List α) :
+    InBox (a :: xs) (l :: ls) (u :: us) ↔ (l ≤ a ∧ a ≤ u) ∧ InBox xs ls us := by
+  constructor
+  · rintro ⟨h1, h2, h3⟩
+    refine ⟨h3 0 (Nat.succ_pos _) (Nat.succ_pos _) (Nat.succ_pos _), ?_, ?_, ?_⟩
+    · simpa using h1
+    · simpa using h2
+    · intro i g1 g2 g3
+      exact h3 (i + 1) (Nat.succ_lt_succ g1) (Nat.succ_lt_succ g2) (Nat.succ_lt_succ g3)
+  · rintro ⟨h0, h1, h2, h3⟩
+    refine ⟨by simp [h1], by simp [h2], ?_⟩
+    intro i g1 g2 g3
+    cases i with
+    | zero => exact h0
+    | succ j =>
+      exact h3 j (Nat.lt_of_succ_lt_succ g1) (Nat.lt_of_succ_lt_succ g2) (Nat.lt_of_succ_lt_succ g3)
+
+/-- the two box predicates (C10's on bound pairs, C04's on lower/upper vectors) agree -/
+theorem inBox_finiteBounds (lo up x : List α) (hl : lo.length = up.length) :
+    TopSearch.Lbfgs.inBox (finiteBounds lo up) x ↔ InBox x lo up := by
+  induction lo generalizing up x with
+  | nil =>
+    cases up with
+    | cons u us => simp at hl
+    | nil =>
+      cases x with
+      | nil => simp [finiteBounds, TopSearch.Lbfgs.inBox, InBox]
+      | cons a xs => simp [finiteBounds, TopSearch.Lbfgs.inBox, InBox]
+  | cons l ls ih =>
+    cases up with
+    | nil => simp at hl
+    | cons u us =>
+      have hl' : ls.length = us.length := by simpa using hl
+      cases x with
+      | nil => simp [finiteBounds, TopSearch.Lbfgs.inBox, InBox]
+      | cons a xs =>
+        rw [InBox_cons, ← ih us xs hl']
+        simp [finiteBounds, TopSearch.Lbfgs.inBox, TopSearch.Lbfgs.inBound]
+
+/-- Every minimum the pipeline offers is the output of `lbfgs.minimise` (C08_stored_subset_outputs
+    for basin-hopping; `reconverge_minima` / `reconverge_landscape` call it directly).  Under the
+    optimiser contract `LBFGSB` (C10) such an output, started inside the box with the surface's
+    `function_gradient` as objective and no extra arguments, is a good minimum: in the box, stored
+    energy = surface at the stored coordinates.  This discharges `C01_inv`'s assumption on minimum
+    offers from the named contract. -/
+theorem C01_minimum_from_minimiser {ι : Type} (opt : TopSearch.Lbfgs.Oracle α ι)
+    (hopt : TopSearch.Lbfgs.LBFGSB opt) (f : List α → α) (gradF : List α → List α)
+    (lo up x0 : List α) (hl : lo.length = up.length) (conv : α) (m n : Nat)
+    (hstart : InBox x0 lo up) :
+    ∃ r, TopSearch.Lbfgs.minimise Gen.Lbfgs.call opt
+        ⟨fun x _ => (f x, gradF x), x0, finiteBounds lo up, conv, m, n, none⟩ = some r ∧
+      GoodMin f lo up ((⟨r.x, r.f⟩, false) : FPt α) := by
+  obtain ⟨r, hr, hbox, hf, _⟩ := TopSearch.Props.C10.C10_from_contract opt hopt
+    ⟨fun x _ => (f x, gradF x), x0, finiteBounds lo up, conv, m, n, none⟩
+    ((inBox_finiteBounds lo up x0 hl).mpr hstart)
+  exact ⟨r, hr, (inBox_finiteBounds lo up r.x hl).mp hbox, hf⟩
 
 end TopSearch.Props.C01
